@@ -78,6 +78,10 @@ def main():
 
 
 NA = {}
+CLAIMS["C20"] = ("exploration",
+    "pure-function PBT: every size/percentage/time/rate decorator is printed for generated values, formats and durations and parsed back (round-trip within the printed precision, largest fitting unit), clock readers are bracketed, moving-average estimators are observed through a recording average against the carry rule, completed bars are checked for freeze",
+    "tolerance includes 8 ulp of float64; reference carry rule and unit table are written from the property statement; go duration / strconv parsers trusted",
+    "property-based testing (rapid): round-trip (format -> parse) oracle, conservation invariant over generated sample sequences, metamorphic freeze relation")
 
 if __name__ == "__main__":
     main()
